@@ -14,6 +14,8 @@ Case lines:
      through in order, result returned) and compared with coq/model/Glue.v gen_forward (theorem C01_forward).
  '104 <handle> | call ; ..'  #[cglue_forward]: the generated impl for Fwd<O> — Fwd(&mut T), Fwd(Box<T>), and opaque objects whose instance is a Fwd(&mut T)
      (harness/prog/src/fwd.rs).
+ '107 <container> <tag> | call ; ..'  by-reference calls followed by a CONSUMING call (boxed object, boxed with context, group, cast!, into!): what the method saw of its
+     own value (destructor not yet run, one live value), destructor once afterwards (harness/prog/src/consume.rs).
  '108 <enabled> <container> | castop request ; ..'  group casts followed by calls (see C08).
 Monitor: results, argument digests seen by the implementation, final state, call log (same method, same instance, once) agree."""
 PROP = "C01"
@@ -44,11 +46,11 @@ def run_impl(lines):
 
 
 def model_line(l):
-    return "0 |" if l.startswith(("101 ", "102 ", "104 ", "105 ")) else l
+    return "0 |" if l.startswith(("101 ", "102 ", "104 ", "105 ", "107 ")) else l
 
 
 def compare(l, impl_rows, model_rows):
-    if l.startswith(("101 ", "102 ", "104 ", "105 ")):
+    if l.startswith(("101 ", "102 ", "104 ", "105 ", "107 ")):
         return True          # behavioural direct-vs-opaque runs: decided by the implementation-side monitor alone
     return impl_rows == model_rows
 
@@ -70,6 +72,9 @@ def gen_cases(rng, tier):
     x, dx = G.ext_cases(rng.fork("ext"), tier)
     f = f + x
     d5.update(dx)
+    y, dy = G.consume_cases(rng.fork("consume"), tier)
+    f = f + y
+    d5.update(dy)
     g, d6 = G.fwd_ir_cases(rng.fork("fwdir"), tier)
     e = e + f + g
     d4.update(d5); d4.update(d6)
